@@ -21,3 +21,124 @@ pub fn coq_bytes(bs: &[u8]) -> String {
 pub fn coq_string(s: &str) -> String {
     format!("\"{}\"", s.replace('"', "\"\""))
 }
+
+// ---------------------------------------------------------------------------------------------
+// symbolic values: canonical ids, text format `(Tag [attr ...] child ...)`
+
+use std::collections::HashMap;
+
+use ethnum::U256;
+use storage_layout_extractor::vm::value::{Provenance, RuntimeBoxedVal, RSV, RSVD};
+
+/// Renames uuids by first occurrence. Uuids that were built from a small integer by the parser
+/// (`Uuid::from_u128(n)`) keep that integer, so that inputs echo back unchanged; fresh random
+/// uuids are numbered from 1_000_000 upwards in order of first occurrence.
+#[derive(Default)]
+pub struct Ids {
+    map:  HashMap<uuid::Uuid, u64>,
+    next: u64,
+}
+
+impl Ids {
+    pub fn get(&mut self, id: &uuid::Uuid) -> u64 {
+        let n = id.as_u128();
+        if n < 1_000_000 {
+            return n as u64;
+        }
+        if let Some(k) = self.map.get(id) {
+            return *k;
+        }
+        let k = 1_000_000 + self.next;
+        self.next += 1;
+        self.map.insert(*id, k);
+        k
+    }
+}
+
+pub fn parse_u256(s: &str) -> Result<U256, String> {
+    if let Some(h) = s.strip_prefix("0x") {
+        U256::from_str_radix(h, 16).map_err(|e| format!("{e:?}"))
+    } else {
+        U256::from_str_radix(s, 10).map_err(|e| format!("{e:?}"))
+    }
+}
+
+pub struct SexpParser<'a> {
+    toks: Vec<&'a str>,
+    pos:  usize,
+}
+
+impl<'a> SexpParser<'a> {
+    pub fn new(s: &'a str) -> Self {
+        let mut toks = vec![];
+        let mut i = 0;
+        let b = s.as_bytes();
+        while i < b.len() {
+            let c = b[i] as char;
+            if c.is_whitespace() {
+                i += 1;
+            } else if "()[]".contains(c) {
+                toks.push(&s[i..=i]);
+                i += 1;
+            } else {
+                let st = i;
+                while i < b.len() && !(b[i] as char).is_whitespace() && !"()[]".contains(b[i] as char) {
+                    i += 1;
+                }
+                toks.push(&s[st..i]);
+            }
+        }
+        Self { toks, pos: 0 }
+    }
+
+    fn next(&mut self) -> Result<&'a str, String> {
+        let t = self.toks.get(self.pos).copied().ok_or("unexpected end")?;
+        self.pos += 1;
+        Ok(t)
+    }
+
+    fn peek(&self) -> Option<&'a str> {
+        self.toks.get(self.pos).copied()
+    }
+
+    pub fn at_end(&self) -> bool {
+        self.pos >= self.toks.len()
+    }
+
+    /// `(Tag [attrs] kids...)` -> value; sizes are computed by the library's own constructor
+    pub fn value(&mut self, limit: Option<usize>) -> Result<RuntimeBoxedVal, String> {
+        if self.next()? != "(" {
+            return Err("expected (".into());
+        }
+        let tag = self.next()?;
+        if self.next()? != "[" {
+            return Err("expected [".into());
+        }
+        let mut attrs = vec![];
+        loop {
+            let t = self.next()?;
+            if t == "]" {
+                break;
+            }
+            attrs.push(parse_u256(t)?);
+        }
+        let mut kids = vec![];
+        while self.peek() == Some("(") {
+            kids.push(self.value(limit)?);
+        }
+        if self.next()? != ")" {
+            return Err("expected )".into());
+        }
+        let data: RSVD = crate::gen_sv::build_svd(tag, &attrs, kids)?;
+        Ok(RSV::new(0, data, Provenance::Synthetic, limit))
+    }
+}
+
+pub fn parse_value(s: &str) -> Result<RuntimeBoxedVal, String> {
+    let mut p = SexpParser::new(s);
+    let v = p.value(None)?;
+    if !p.at_end() {
+        return Err("trailing tokens".into());
+    }
+    Ok(v)
+}
